@@ -393,9 +393,17 @@ pub fn filter_atom(pair: Pair<Rule>) -> Parsed<FilterAtom> {
                 }
             }
 
-            test_expr
-                .map(|expr| FilterAtom::test(expr, not))
-                .ok_or("Logical expression is absent".into())
+            match test_expr {
+                // RFC 9535 2.4.3: a function used as a test must not return a value
+                Some(Test::Function(tf)) if tf.is_comparable() => {
+                    Err(JsonPathError::InvalidJsonPath(format!(
+                        "Function {} returns a value and can not be used as a test",
+                        tf.to_string()
+                    )))
+                }
+                Some(expr) => Ok(FilterAtom::test(expr, not)),
+                None => Err("Logical expression is absent".into()),
+            }
         }
         _ => Err(rule.into()),
     }
